@@ -249,6 +249,31 @@ def build_and_audit(pid):
     return out
 
 
+def pv_modules(pid):
+    """the property's theorem modules and every PV module they import, transitively"""
+    seen, todo = [], ['PV.Props.' + pid]
+    while todo:
+        m = todo.pop()
+        if m in seen:
+            continue
+        path = os.path.join(LEAN_DIR, *m.split('.')) + '.lean'
+        if not os.path.exists(path):
+            continue
+        seen.append(m)
+        for imp in re.findall(r'^import (PV\.[A-Za-z0-9_\.]+)', open(path).read(), flags=re.M):
+            todo.append(imp)
+    return seen
+
+
+def run_leanchecker(pid):
+    """independent re-check of the compiled modules (thorough tier); returns (ok, text)"""
+    mods = pv_modules(pid)
+    with leanmod.LakeLock():
+        p = subprocess.run(['lake', 'env', 'leanchecker'] + mods, cwd=LEAN_DIR, stdout=subprocess.PIPE,
+                           stderr=subprocess.STDOUT, text=True, timeout=3600)
+    return p.returncode == 0, ('%d modules re-checked: %s' % (len(mods), ' '.join(mods)) if p.returncode == 0 else p.stdout[-2000:])
+
+
 # ----------------------------------------------------------------------------- main
 
 def write_replay(pid, idx, payload):
@@ -305,6 +330,15 @@ def main():
         proof_broken.append('axiom audit failed for: %s' % ', '.join(audit['bad']))
     if audit['forbidden']:
         proof_broken.append('forbidden constructs: %s' % '; '.join(audit['forbidden'][:5]))
+    leanchecker_note = None
+    if tier == 'thorough' and audit['build_ok'] and not args.replay:
+        try:
+            ok, txt = run_leanchecker(pid)
+            leanchecker_note = ('leanchecker ok: ' if ok else 'leanchecker FAILED: ') + txt
+            if not ok:
+                proof_broken.append('leanchecker rejects the compiled modules')
+        except Exception as e:
+            leanchecker_note = 'leanchecker could not be run: %r' % (e,)
 
     # the correspondence / failing-input search needs the driver; if the model itself does not
     # build any more we cannot run it - fall back to the implementation-only predicate checks
@@ -405,7 +439,7 @@ def main():
             'known_findings_seen': sorted(seen_known),
             'fixed_findings_watched': [f[1] for f in fixed],
             'proof_broken': proof_broken,
-            'notes': ctx.notes,
+            'notes': ctx.notes + ([leanchecker_note] if leanchecker_note else []),
         },
         'assumptions': getattr(mod, 'ASSUMPTIONS', []),
         'wall_s': round(time.time() - t0, 2),
